@@ -320,6 +320,11 @@ func one(id int, dir string) O {
 	os.WriteFile(jf, js, 0644)
 	e = trap(func() error { var err error; _, spec, err = sio.ResolveSpecSource(ctx, &crew.SpecSource{URL: "file://" + jf}); return err })
 	add("sio-file-json", spec, nil, e)
+	// the same JSON document after a byte order mark, a newline and some spaces: still JSON
+	jf2 := filepath.Join(dir, "s2.json")
+	os.WriteFile(jf2, append([]byte("\xef\xbb\xbf\n  "), js...), 0644)
+	e = trap(func() error { var err error; _, spec, err = sio.ResolveSpecSource(ctx, &crew.SpecSource{URL: "file://" + jf2}); return err })
+	add("sio-file-json-after-whitespace", spec, nil, e)
 	if yerr == nil {
 		yf := filepath.Join(dir, "s.yaml")
 		os.WriteFile(yf, ys, 0644)
